@@ -235,7 +235,9 @@ func (g *gen) funcSig(np, nr int) ([]string, []string) {
 // F-C06-7: a function with exactly one parameter of type complex128 and no result
 // stores its argument in the wrong slot array
 func (g *gen) avoidF7(ps, rs []string) {
-	if len(ps) == 1 && len(rs) == 0 && ps[0] == "complex128" && g.no("F-C06-7") {
+	// (also a named type with underlying type complex128: interpreted named types have
+	// the reflect.Type of their underlying type and take the specialised path too)
+	if len(ps) == 1 && len(rs) == 0 && g.under(ps[0]) == "complex128" && g.no("F-C06-7") {
 		g.skipped("F-C06-7")
 		ps[0] = "complex64"
 	}
